@@ -6,9 +6,21 @@ from fractions import Fraction as F
 from . import bootstrap
 
 
+WARNINGS_AS_ERRORS = False  # set by the runner for shards of the 'warnings-as-errors' ambient profile
+
+
 def call(fn, *a, **kw):
     """(True, value) or (False, exception) -- BaseException subclasses other than
-    Exception (KeyboardInterrupt, SystemExit, ...) propagate."""
+    Exception (KeyboardInterrupt, SystemExit, ...) propagate.  Under the 'warnings-as-errors' profile the
+    call runs the way it runs under `python -W error`: a warning issued during it is raised."""
+    if WARNINGS_AS_ERRORS:
+        import warnings
+        try:
+            with warnings.catch_warnings():
+                warnings.simplefilter("error")
+                return True, fn(*a, **kw)
+        except Exception as e:  # noqa
+            return False, e
     try:
         return True, fn(*a, **kw)
     except Exception as e:  # noqa
@@ -69,13 +81,14 @@ def construct(cls, s):
     return cls(s)
 
 
-BUILT = ("from_rh_vector", "copy", "deepcopy", "pickle", "text")
+BUILT = ("from_rh_vector", "copy", "deepcopy", "pickle", "text", "original-after-copy")
 
 
 def build(L, ver, s, how=None):
     """An object for the accepted vector string s, obtained the way `how` says: None = the constructor;
     'from_rh_vector' = from the Red Hat notation with the true score in front; 'copy' / 'deepcopy' / 'pickle' =
-    a copy of the constructed object; 'text' = the object parse_cvss_from_text() builds from s (v2, v3).
+    a copy of the constructed object; 'original-after-copy' = a constructed, still unused object after a shallow
+    copy of it was taken and used; 'text' = the object parse_cvss_from_text() builds from s (v2, v3).
     Returns None where that way does not yield an object of the class (not judged: no property promises that
     objects can be copied, and the extractor may legitimately return nothing for some string)."""
     o = L.CLS[ver](s)
@@ -94,6 +107,13 @@ def build(L, ver, s, how=None):
             import pickle
             o.clean_vector(), hash(o), o.as_json()
             o2 = pickle.loads(pickle.dumps(o, 2))
+        elif how == "original-after-copy":
+            # the object itself, untouched so far, after a shallow copy of it was taken and USED
+            import copy
+            fresh = L.CLS[ver](s)
+            twin = copy.copy(fresh)
+            twin.scores(), twin.clean_vector(), twin.as_json(), hash(twin)
+            o2 = fresh
         elif how == "text":
             if ver == "4":
                 return None
